@@ -2,7 +2,7 @@
 # tools/validate_seed.sh <Cxx> <A|B>: confirm a seeded change in its own scratch worktree /tmp/seed/Cxx:
 # (c) patch alone: existing suite passes; (b) patch+demo: some test fails; (a) demo alone: all pass.
 set -u
-P=$1; V=$2; W=/tmp/seed/$P; O=$W/out/$V
+P=$1; V=$2; W=${SEEDROOT:-/tmp/seed}/$P; O=$W/out/$V
 cd $W || exit 2
 export CARGO_NET_OFFLINE=true
 FLAKY='request_invalid_frame_after_trailers|request_invalid_frame_first'
